@@ -21,7 +21,8 @@ RULE = (
     "residual or mobile), plus 1..12 evaluation points (pressure strictly inside the table at least 1 psi from any "
     "node, or exactly on a node; oil saturation in [0, 1-Sw]). Non-trivial = a pressure-dependent table with at "
     "least one off-node evaluation point, or a constant-property table (where the result must vanish). Distinct = "
-    "hash of the case record."
+    "hash of the case record. Reference densities are 1e-4..1e2, or exactly 0 (int or float) for one component left out of the "
+    "mass balance (water in one case in six, oil or gas in one in twelve each)."
 )
 ASSUMPTIONS = [
     "stored mass per unit volume: phi [rho_o (Rv Sg/Bg + So/Bo) + rho_g (Rs So/Bo + Sg/Bg) + rho_w Sw/Bw] (docs/background.md; the `S_g/b_o` in the alpha section of the document is a typo against its own mass-balance equations)",
@@ -205,6 +206,6 @@ def check_case(case) -> Result:
             if not np.all(c_nodes > 0):
                 return res
             want = lam_nodes / c_nodes
-            res.check("C16/tabulated-diffusivity", float(np.max(np.abs(al - want) / np.abs(want))), 1e-10, "alpha column of from_table vs documented mobility / library compressibility at the nodes;")
+            res.check("C16/tabulated-diffusivity", float(np.max(np.abs(al - want) / np.maximum(np.abs(want), 1e-300))), 1e-10, "alpha column of from_table vs documented mobility / library compressibility at the nodes;")
             res.labels["from_table"] = "checked"
     return res
